@@ -3,6 +3,8 @@ package props
 import (
 	"encoding/json"
 
+	coraza "github.com/corazawaf/coraza/v3"
+
 	"verif/internal/fw"
 	"verif/internal/gen"
 	"verif/internal/sl"
@@ -12,6 +14,16 @@ type c01Case struct {
 	Program *sl.Program `json:"program"`
 	Text    string      `json:"text"`
 	Req     *sl.Req     `json:"req"`
+}
+
+// unjudgedRun executes a case whose outcome the model does not predict: the engine still must not panic on it.
+func unjudgedRun(w *fw.W, waf coraza.WAF, c any, req *sl.Req) {
+	w.Trace(c)
+	got := sl.Exec(waf, req)
+	w.Count("unjudged_cases_executed_for_panics", 1)
+	if got.Panic != "" {
+		w.Violation("panic-on-unjudged-case", "recover", c, "no panic", got, got.Panic)
+	}
 }
 
 func c01Judge(w *fw.W, c *c01Case, reps int) bool {
@@ -27,6 +39,7 @@ func c01Judge(w *fw.W, c *c01Case, reps int) bool {
 		w.Count("ambiguous_skipped", 1)
 		w.Cover("ambiguous_reasons", exp.Ambiguous)
 		w.Count("ambiguous: "+exp.Ambiguous, 1)
+		unjudgedRun(w, waf, c, c.Req)
 		return false
 	}
 	for i := 0; i < reps; i++ {
